@@ -220,7 +220,35 @@ def check_views(r, src, soup, is_fresh_parse=True):
             if str(x) != str(cont[i]) or isinstance(x, TexNode) != isinstance(cont[i], TexNode):
                 r.fail(Failure('C04', 'indexing', src, str(x), str(cont[i]), opts={'index': i}))
                 break
-        for c in list(cont) + list(ch):
+        # indexing follows `contents` for every kind of index a list takes:
+        # negative indices, slices, and IndexError out of range
+        nc = len(cont)
+        got_by_index = []
+        for idx in ([-k for k in range(1, nc + 1)] +
+                    [slice(None), slice(1, None), slice(None, -1), slice(None, None, -1), slice(0, nc, 2)]):
+            try:
+                x = node[idx]
+            except Exception as ex:     # noqa
+                r.fail(Failure('C04', 'indexing', src, type(ex).__name__, 'list(contents)[%r]' % (idx,),
+                               opts={'index': repr(idx)}))
+                break
+            want_x = cont[idx]
+            xs, ws = (x, want_x) if isinstance(idx, slice) else ([x], [want_x])
+            if (isinstance(idx, slice) and not isinstance(x, list)) or len(xs) != len(ws) or not all(
+                    str(a) == str(b) and isinstance(a, TexNode) == isinstance(b, TexNode)
+                    and (not isinstance(a, TexNode) or a.expr is b.expr) for a, b in zip(xs, ws)):
+                r.fail(Failure('C04', 'indexing', src, repr(x)[:80], repr(want_x)[:80], opts={'index': repr(idx)}))
+                break
+            got_by_index += [a for a in xs if isinstance(a, TexNode)]
+        for bad in (nc, -nc - 1):
+            try:
+                node[bad]
+                r.fail(Failure('C04', 'indexing', src, 'no IndexError', 'IndexError', opts={'index': bad}))
+            except IndexError:
+                pass
+            except Exception as ex:     # noqa
+                r.fail(Failure('C04', 'indexing', src, type(ex).__name__, 'IndexError', opts={'index': bad}))
+        for c in list(cont) + list(ch) + [x for x in it if isinstance(x, TexNode)] + got_by_index:
             if isinstance(c, TexNode) and c.parent is not node:
                 r.fail(Failure('C04', 'parent', src, str(c.parent)[:60], str(node)[:60],
                                opts={'child': str(c)[:60]}))
